@@ -1,6 +1,7 @@
 CONSTANTS
   Letters = {97}
   Extra = {}
+  BreakInLiterals = FALSE
   MaxKeys = 8
   MaxEnters = 3
   EmitOn = TRUE
